@@ -158,3 +158,36 @@ Proof.
   - rewrite S in H. discriminate.
   - exfalso. exact (amf0_dec_total' _ _ _ E).
 Qed.
+
+(* ------------------------------------------------------------------ linear-time encoder *)
+Lemma enc_to_obj ps tail : enc_to (AObj ps) tail = mObject :: enc_props_to ps (eof_bytes ++ tail).
+Proof.
+  cbn [enc_to]. f_equal. induction ps as [|[k x] t IH]; cbn [enc_props_to]; [reflexivity|now rewrite IH].
+Qed.
+Lemma enc_to_ecma c ps tail : enc_to (AEcma c ps) tail = mEcmaArray :: be4 c ++ enc_props_to ps (eof_bytes ++ tail).
+Proof.
+  cbn [enc_to]. f_equal. f_equal. induction ps as [|[k x] t IH]; cbn [enc_props_to]; [reflexivity|now rewrite IH].
+Qed.
+Lemma enc_to_strict ps tail : enc_to (AStrict ps) tail = mStrictArray :: be4 (u32 (plen ps)) ++ enc_props_to ps tail.
+Proof.
+  cbn [enc_to]. f_equal. f_equal. induction ps as [|[k x] t IH]; cbn [enc_props_to]; [reflexivity|now rewrite IH].
+Qed.
+
+Lemma enc_props_to_eq ps :
+  Forall (fun kv => forall tail, enc_to (snd kv) tail = enc (snd kv) ++ tail) ps ->
+  forall tail, enc_props_to ps tail = enc_props ps ++ tail.
+Proof.
+  induction 1 as [|[k x] t Hx _ IH]; intros tail; [reflexivity|].
+  cbn [enc_props_to enc_props snd] in *. rewrite Hx, IH, <- !app_assoc. reflexivity.
+Qed.
+
+Lemma enc_to_eq v : forall tail, enc_to v tail = enc v ++ tail.
+Proof.
+  induction v as [b|b|s|ps IH| | |c ps IH|ps IH] using amf_ind'; intros tail; try reflexivity.
+  - rewrite enc_to_obj, enc_obj, (enc_props_to_eq ps IH). cbn [app]. rewrite <- app_assoc. reflexivity.
+  - rewrite enc_to_ecma, enc_ecma, (enc_props_to_eq ps IH). cbn [app]. rewrite <- !app_assoc. reflexivity.
+  - rewrite enc_to_strict, enc_strict, (enc_props_to_eq ps IH). cbn [app]. rewrite <- !app_assoc. reflexivity.
+Qed.
+
+Theorem enc_fast_eq v : enc_fast v = enc v.
+Proof. unfold enc_fast. rewrite enc_to_eq. apply app_nil_r. Qed.
